@@ -435,6 +435,13 @@ impl VisitMut for Lower {
 
     fn visit_block_mut(&mut self, b: &mut Block) {
         visit_mut::visit_block_mut(self, b);
+        // R2: a `const NAME: T = EXPR;` item inside a body is `let NAME: T = EXPR;` (Verus has no inner items)
+        for st in b.stmts.iter_mut() {
+            if let Stmt::Item(Item::Const(c)) = st {
+                let (name, ty, e) = (&c.ident, &c.ty, &c.expr);
+                *st = parse_quote! { let #name: #ty = #e; };
+            }
+        }
         // R0: `let Range { mut start, end } = a..b;`  ->  `let mut start = a; let end = b;`
         let mut out = Vec::with_capacity(b.stmts.len());
         for st in b.stmts.drain(..) {
